@@ -3,21 +3,23 @@
 spec/MemSlice.tla: a view is <offset, [extent, stride]...> over a padded base of element ids.
 Reference = PySlice_Unpack/PySlice_AdjustIndices per axis, integer index with wraparound / IndexError,
 step 0 -> ValueError, None inserts an axis, one Ellipsis expands.  Implementation-shaped = the
-per-dimension arithmetic of __pyx_memoryview_slice_memviewslice (have_* flags, clamping branches, C
-division), the SliceIndex template and both unellipsify routines, with two repair switches that
-classify every deviation of the transcription ("clamp", "div" hazards).  TLC explores: the whole 1-D
-quantifier domain on contiguous / strided / reversed inputs (full1), chains a[e1][e2] (chain), and
-1..3-D products of a per-axis menu with None / Ellipsis placements (nd), all in one run per tier.  MemSlice_refute.cfg must
-refute "transcription = reference".
+per-dimension arithmetic of __pyx_memoryview_slice_memviewslice as it is after commit 20608b6d6 (have_*
+flags, clamping branches, PySlice-style length), the SliceIndex template and both unellipsify routines.
+TLC explores in one run per tier: the whole 1-D quantifier domain on contiguous / strided / reversed inputs
+(full1), chains a[e1][e2] (chain1), and 1..3-D products of a per-axis menu with None / Ellipsis placements
+(nd); invariants: transcription = reference on the typed and on the object path (ImplAgrees, ObjAgrees;
+until 20608b6d6 the model refuted this: negative step with a bound below -len clamped to 0, length by C
+division), same position of every non-empty result, both ellipsis expansions = reference expansion.
 
 Binding B1: every published case (state) is executed on code compiled from the working tree:
   typed-runtime  one function per compile-time skeleton (which bounds are present, where None/...
                  stand), bounds as Py_ssize_t arguments; `long[::1]` twin for contiguous 1-D inputs
   constant       bounds compiled into the source (sample of triples of the 1-D domain)
   object         (<object>a)[obj] -> MemoryView.pyx __getitem__/_unellipsify/memview_slice
-P = NumPy on the same array (+ Python's memoryview for 1-D); S/P drift is a machinery error.
-Observation: (shape, strides in elements, elements in C order) via the buffer protocol and the
-memoryview object's own .shape/.strides, or the exception type.
+and must give the reference observation -- also on the cells of the two repaired defects (marked by the
+spec, counted in the evidence).  P = NumPy on the same array (+ Python's memoryview for 1-D); S/P drift
+is a machinery error.  Observation: (shape, strides in elements, elements in C order) via the buffer
+protocol and the memoryview object's own .shape/.strides, or the exception type.
 """
 import concurrent.futures
 import json
@@ -33,7 +35,8 @@ import lib_memslice as L
 PROP = "C16"
 FUNCS_PER_MODULE = 300
 
-NEEDED = ["err:IndexError", "err:ValueError", "err:none", "hz:none", "hz:clamp", "hz:div", "empty", "nonempty",
+NEEDED = ["err:IndexError", "err:ValueError", "err:none", "former:none", "former:neg-step-bound-below-minus-len",
+          "former:bounds-against-step-by-less-than-a-step", "empty", "nonempty",
           "item:i", "item:s", "item:n", "item:e", "neg_step", "omitted_bound", "depth:1", "depth:2",
           "nd_in:1", "nd_in:2", "nd_in:3", "lay:c", "lay:s2", "lay:r", "ndim_out:0", "ndim_out:1", "ndim_out:2", "ndim_out:3"]
 
@@ -54,11 +57,9 @@ def log(t0, msg):
     sys.stderr.flush()
 
 
-def obs_class(got, want, pred, hz):
+def obs_class(got, want):
     if isinstance(got, str) and (got.startswith("CRASH") or got == "TIMEOUT"):
         return "crash"
-    if hz != "none" and got == pred:
-        return "as-transcribed"       # exactly what the transcription of the code as it is predicts
     if isinstance(got, str) and got.startswith("E:"):
         return "exception"
     if isinstance(want, str) and want.startswith("E:"):
@@ -93,9 +94,9 @@ def run(tier, seed):
 
     # ------------------------------------------------------------------ model checking
     nw = max(2, core.NCPU // (2 if tier == "quick" else 3))
-    jobs = list(T["cfgs"]) + [("refute", "MemSlice_refute")]
+    jobs = list(T["cfgs"])
     with concurrent.futures.ThreadPoolExecutor(max_workers=len(jobs)) as ex:
-        futs = [(part, cfg, ex.submit(_tlc, cfg, workers=2 if part == "refute" else nw, timeout=3000 if tier == "thorough" else 900,
+        futs = [(part, cfg, ex.submit(_tlc, cfg, workers=nw, timeout=3000 if tier == "thorough" else 900,
                                       deadlock=False, heap="6g" if tier == "thorough" else None)) for part, cfg in jobs]
         crash_probe = ex.submit(core.build_many, [core.BuildSpec("c16probe", CRASH_PROBE, cython_only=True)], core.subdir("c16probe"), 1)
         results = [(part, cfg, f.result()) for part, cfg, f in futs]
@@ -105,12 +106,6 @@ def run(tier, seed):
     for part, cfg, r in results:
         states += r.generated
         distinct += r.distinct
-        if part == "refute":
-            cov["tlc"].append(dict(r.summary(), config=cfg, expected_violation="ImplAgrees", violation=r.violation))
-            if r.violation != "ImplAgrees":
-                sys.stderr.write(r.out[-3000:])
-                core.die("%s: TLC was expected to refute ImplAgrees (transcription of the code as it is = reference), got %r" % (cfg, r.violation))
-            continue
         cov["tlc"].append(dict(r.summary(), config=cfg))
         if not r.ok:
             sys.stderr.write(r.out[-6000:])
@@ -157,13 +152,13 @@ def run(tier, seed):
         else:
             n_untyped += 1
         plan.append(p)
-    # constant bounds: sample of distinct triples of the 1-D domain, all hazard triples first in line
+    # constant bounds: sample of distinct triples of the 1-D domain, half of them from the cells of the repaired defects
     triples = {}
     for i, c in enumerate(cases):
         if c["part"] == "full1" and c["hist"][0][0][0] == "s":
             triples.setdefault(tuple(c["hist"][0][0]), []).append(i)
     tkeys = sorted(triples)
-    hz_t = [t for t in tkeys if any(cases[i]["exp"]["hz"] != "none" for i in triples[t])]
+    hz_t = [t for t in tkeys if any(L.former_cell(cases[i]["exp"]) != "none" for i in triples[t])]
     chosen = core.sample(hz_t, T["consts"] // 2, rng)
     chosen += core.sample([t for t in tkeys if t not in set(chosen)], T["consts"] - len(chosen), rng)
     for t in chosen:
@@ -207,7 +202,7 @@ def run(tier, seed):
         tabs[0][0].append(["in_ref", [{"t": list(key[0])}, {"t": list(key[1])}]])
         tabs[0][1].append(("P-in", key, None))
     tuple_forms = set(core.sample([i for i, c in enumerate(cases) if all(len(e) == 1 for e in c["hist"])], T["tuple_forms"], rng))
-    n_unsafe = 0
+    n_former = {}
     for i, c in enumerate(cases):
         nd = len(c["lens"])
         arr = L.arr_py(c["lens"], c["lays"], exporter=True)     # code under test: exact buffer of the model
@@ -219,9 +214,6 @@ def run(tier, seed):
         if L.mv_applicable(nd, c["hist"]):
             cl.append(["mv_ref", [arr, es]])
             meta.append(("P-mv", i, None))
-        if not c["exp"]["safe"]:
-            n_unsafe += 1      # the code as it is would read outside the padded base: not executed
-            continue
         has_none = any(it[0] == "n" for e in c["hist"] for it in e)
         if not has_none:       # the memoryview object rejects None (TypeError, like Python's memoryview): typed path only
             cl.append(["ob%d" % nd, [arr, es]])
@@ -263,17 +255,18 @@ def run(tier, seed):
                 continue
             n_exec += 1
             per_path[path] = per_path.get(path, 0) + 1
+            fc = L.former_cell(c["exp"])
+            if fc != "none":
+                n_former[fc] = n_former.get(fc, 0) + 1
             if c["exp"]["err"] or json.dumps(c["hist"]) != json.dumps([[["s", L.NONE, L.NONE, L.NONE]]]):
                 nontrivial.add((call[0], json.dumps(call[1], sort_keys=True)))
             if got == want:
                 if len(matched) < 4000:
                     matched.append((call, want, got))
                 continue
-            pred = L.predicted(c["exp"])
-            oc = obs_class(got, want, pred, c["exp"]["hz"])
-            rep.disagree(L.descriptor(c["part"], "object" if path == "object-contig" else path, c), oc,
+            rep.disagree(L.descriptor(c["part"], "object" if path == "object-contig" else path, c), obs_class(got, want),
                          {"expr": L.expr_text(c["hist"]), "lens": c["lens"], "lays": c["lays"], "call": call, "path": path,
-                          "want": want, "got": got, "transcription_predicts": pred if c["exp"]["hz"] != "none" else None})
+                          "want": want, "got": got, "cell_of_repaired_defect": L.former_cell(c["exp"])})
     # the one index form that cannot be compiled at all
     crash = (probe.stage == "cython-crash") or ("Compiler crash" in (probe.errors or ""))
     if crash:
@@ -306,12 +299,12 @@ def run(tier, seed):
         "traces_validated_against_impl": n_exec, "evaluations": n_exec, "distinct_nontrivial": len(nontrivial),
         "cases_published": len(cases), "oracle_evaluations": n_p, "executed_per_path": per_path,
         "functions_compiled": len(funcs), "modules": len(builds),
-        "cases_without_typed_form": n_untyped, "hazard_cases_not_executed_outside_padding": n_unsafe,
+        "cases_without_typed_form": n_untyped, "executions_on_cells_of_repaired_defects": n_former,
         "exhaustive": True,
         "rule": "every state published by TLC is executed on every entry path that can express it; non-trivial = distinct "
                 "(function, arguments) call whose index expression is not the bare full slice",
         "samples": [{"expr": L.expr_text(cases[i]["hist"]), "lens": cases[i]["lens"], "lays": cases[i]["lays"],
-                     "expected": L.expected(cases[i]["exp"])[:200], "hazard": cases[i]["exp"]["hz"]}
+                     "expected": L.expected(cases[i]["exp"])[:200], "cell_of_repaired_defect": L.former_cell(cases[i]["exp"])}
                     for i in rng.sample(range(len(cases)), 5)],
     })
     rc = rep.finish()
@@ -320,7 +313,6 @@ def run(tier, seed):
                         assumptions=["dtype long (int64) only: the slicing arithmetic does not depend on the item type",
                                      "direct (non-indirect) axes only; default directives (boundscheck, wraparound on)",
                                      "None on the object path is outside the check: the memoryview object rejects it with TypeError "
-                                     "like Python's memoryview does",
-                                     "hazard cases whose deviating view would leave the padded base are checked in the model only"],
+                                     "like Python's memoryview does"],
                         violations=rep.n_violations())
     return rc
